@@ -351,6 +351,9 @@ def mutant(src, dst, inf, muts):
     shutil.copytree(src, dst)
     inf["root"] = src
     for mu in muts:
-        if apply(dst, inf, mu) == "n/a":
-            return False
+        try:
+            if apply(dst, inf, mu) == "n/a":
+                return False
+        except (FileNotFoundError, IndexError, ValueError):
+            return False      # the second edit of a pair no longer has its site (file deleted, line gone)
     return True
